@@ -25,7 +25,7 @@ ASSUMPTIONS = ['equal formed arrays give bitwise equal results (observed; '
 TIMEOUT = {'quick': 900, 'thorough': 3 * 3600}
 setup_worker = common.setup_worker
 DTYPES = ['int64', 'int32', 'int16', 'int8', 'uint8', 'uint16']
-KINDS = ['array', 'list', 'callable']
+KINDS = ['array', 'list', 'callable', 'records']
 
 
 class CustomError(Exception):
@@ -83,6 +83,13 @@ def _mkprep(kind, X):
     return X, None
   if kind == 'list':
     return X.tolist(), None
+  if kind == 'records':
+    # a callable over Python records: what it returns for a batch of
+    # indicators has the dtype numpy infers for *those* records (integers for
+    # whole-number points, floats otherwise)
+    rows = [[int(v) if float(v).is_integer() else float(v) for v in r]
+            for r in np.asarray(X).tolist()]
+    return (lambda idx: np.array([rows[int(i)] for i in np.ravel(idx)])), None
   mp = MonitoredPreprocessor(X)
   return mp, mp
 
@@ -97,8 +104,12 @@ def run_case(spec, j):
     dt = np.dtype('int16')
   rng = rng_for('c5', spec['ds']['seed'], name)
   kindE = E.KIND[name]
+  if spec['kind'] == 'records':
+    X = np.array(X, dtype=float, copy=True)
+    n_int = max(3, n // 3)
+    X[:n_int] = np.round(X[:n_int])
   Xp = X
-  if spec.get('junk'):
+  if spec.get('junk') and spec['kind'] != 'records':
     # the preprocessor's source has rows that are never referenced: NaN,
     # infinities, huge values (the formed data is the same finite data)
     junk = np.array([[np.nan] * d, [np.inf] * d, [-np.inf] * d,
@@ -109,6 +120,8 @@ def run_case(spec, j):
     Xp = np.vstack([X, junk.astype(X.dtype)])
   prep, mp = _mkprep(spec['kind'], Xp)
   # ----- build twins with identical parameters
+  if spec['kind'] == 'records':
+    ds = dict(ds, X=X)
   fb = common.build(spec, ds)                       # B: formed data
   params = dict(fb.meta['params'])
   A = E.cls(name)(**dict(params, preprocessor=prep))
@@ -193,6 +206,27 @@ def run_case(spec, j):
   api.set_judge(j)
   qi = rng.randint(0, n, size=25).astype(dt)           # repeats, any order
   cmp('C05.transform', 'transform', qi)
+  # structured index columns: runs, runs with a repeat and a skip (same span
+  # as a run), constants, sorted with repeats
+  a0 = int(rng.randint(0, max(1, n - 8)))
+  pats = [np.arange(a0, a0 + 5), np.arange(a0 + 4, a0 - 1, -1),
+          np.array([a0, a0, a0 + 2, a0 + 3]), np.array([a0 + 1, a0 + 1, a0 + 3]),
+          np.full(4, a0), np.sort(rng.randint(0, n, size=9)),
+          np.array([a0, a0 + 1, a0 + 1, a0 + 3, a0 + 4])]
+  for pat in pats:
+    cmp('C05.transform', 'transform', pat.astype(dt))
+    other = pat[::-1] if len(pat) % 2 else rng.randint(0, n, size=len(pat))
+    cmp('C05.pair_distance', 'pair_distance',
+        np.column_stack([pat, other]).astype(dt))
+    cmp('C05.pair_distance', 'pair_distance',
+        np.column_stack([other, pat]).astype(dt))
+  if spec['kind'] == 'records':
+    # first members whole-number points, second members arbitrary
+    n_int = max(3, n // 3)
+    pr = np.column_stack([rng.randint(0, n_int, size=12),
+                          rng.randint(n_int, n, size=12)]).astype(dt)
+    cmp('C05.pair_distance', 'pair_distance', pr)
+    cmp('C05.pair_score', 'pair_score', pr)
   pi = rng.randint(0, n, size=(20, 2)).astype(dt)
   cmp('C05.pair_distance', 'pair_distance', pi)
   cmp('C05.pair_score', 'pair_score', pi)
